@@ -873,7 +873,7 @@ func checkExpiry(c *km.Ctx, s *km.Sem, consumers []claimsConsumer) {
 			// every user of the exported info tests it before honouring
 			users := authInfoUsers(c, fn)
 			for _, u := range users {
-				switch u.fn.Name() {
+				switch km.NameOf(u.fn) {
 				case "writeFailureResponse", "logoutHandler":
 					r.Add("R-C04-4", km.FuncName(u.fn), "display-only use of a session token", posOf(c, u.call), "result used only to choose a page / a display name (no honour point)", "tabled", true)
 					continue
@@ -919,7 +919,7 @@ func authInfoUsers(c *km.Ctx, get *ssa.Function) []infoUser {
 			if !ok {
 				continue
 			}
-			if cs.Caller.Name() == "getAuthInfoFromAuthJWT" {
+			if km.NameOf(cs.Caller) == "getAuthInfoFromAuthJWT" {
 				walk(cs.Caller)
 				continue
 			}
